@@ -1410,6 +1410,13 @@ func (p *Posix) CompleteMultipartUpload(ctx context.Context, input *s3.CompleteM
 		return nil, err
 	}
 
+	// completing the upload replaces the object: an object under legal
+	// hold or retention must not be replaced
+	err = auth.CheckObjectAccess(ctx, bucket, acct.Access, []types.ObjectIdentifier{{Key: &object}}, true, p)
+	if err != nil {
+		return nil, err
+	}
+
 	objdir := filepath.Join(metaTmpMultipartDir, fmt.Sprintf("%x", sum))
 
 	checksums, err := p.retrieveChecksums(nil, bucket, filepath.Join(objdir, uploadID))
